@@ -65,6 +65,7 @@ type adapter struct {
 	types         []string // key types to draw from (repetition = weight)
 	legacyURL     string
 	legacyLen     int
+	legacyRawOnly bool // harness-owned keys of this class exist with prefix type RAW only (the class has no output prefix)
 	asymmetric    bool
 	hasPrefix     bool // outputs start with the key's output prefix
 	deterministic bool
@@ -354,6 +355,35 @@ var hybridAdapter = &adapter{
 
 var streamingAdapter = &adapter{
 	name: "streaming", class: keys.Streaming, types: keys.Types(keys.Streaming),
+	// harness-owned key type served by a key manager: the factory's legacy (non-full primitive) path
+	legacyURL: legacykm.StreamURL, legacyLen: 32, legacyRawOnly: true,
+	legacyModel: func(e *entry) *prim {
+		raw := &legacykm.RawStreaming{Key: e.material}
+		return &prim{
+			produce: func(in *input) ([]byte, error) {
+				var buf bytes.Buffer
+				w, err := raw.NewEncryptingWriter(&buf, in.ad)
+				if err != nil {
+					return nil, err
+				}
+				if _, err := w.Write(in.msg); err != nil {
+					return nil, err
+				}
+				if err := w.Close(); err != nil {
+					return nil, err
+				}
+				return buf.Bytes(), nil
+			},
+			accept: func(out []byte, in *input) error {
+				r, err := raw.NewDecryptingReader(bytes.NewReader(out), in.ad)
+				if err != nil {
+					return err
+				}
+				pt, err := io.ReadAll(r)
+				return same(pt, in.msg, err)
+			},
+		}
+	},
 	fromHandle: func(h, _ *keyset.Handle, cfg keyset.Config) (*prim, error) {
 		p, err := streamingaead.New(h)
 		if cfg != nil {
